@@ -522,7 +522,7 @@ fn campaign<K: BoolKind>(seed: u64, cases: u32, layer: u8, rep: &mut Report) {
 
 pub fn run(cfg: &Cfg) -> i32 {
     let start = Instant::now();
-    if let Some(path) = &cfg.replay {
+    if let Some(path) = cfg.replay.as_ref().filter(|p| replay_case_is(p, |c| c["scen"].is_object() || c.get("schedule").is_some())) {
         let v: Value = serde_json::from_str(&std::fs::read_to_string(path).expect("replay file")).expect("json");
         let c = &v["case"];
         if c.get("schedule").is_some() {
